@@ -1,4 +1,39 @@
-(* C19 placeholder (Model/Cli.v theorems follow in a later commit) *)
-From Coq Require Import List.
-Theorem C19_placeholder : forall (A : Type) (l : list A), length (rev l) = length l.
-Proof. intros; apply rev_length. Qed.
+(* C19 - The plan CLI honours its output contract (decision function of 'plan report', Model/Cli.v).
+   The hash, the JSON stamping and the engine are parameters: the theorems hold for every choice. *)
+From Coq Require Import List Bool Arith.
+Require Import SP.Model.Cli SP.Proofs.CliProofs.
+Import ListNotations.
+
+Theorem C19_exit_status : forall hash stamp ch inp f auto eng,
+  r_exit (plan_report hash stamp ch inp f auto eng) =
+  match inp with
+  | Missing | NotAFile | EmptyInput => E1
+  | Content b => match eng b with
+                 | EngineFailed => E2
+                 | EngineOk files => match pick_auto auto f files with Some _ => E0 | None => E2 end
+                 end
+  end.
+Proof. exact exit_table. Qed.
+Print Assumptions C19_exit_status.
+
+Theorem C19_stdout_only_on_success : forall hash stamp ch inp f auto eng,
+  (r_exit (plan_report hash stamp ch inp f auto eng) = E0 <-> r_stdout (plan_report hash stamp ch inp f auto eng) <> None) /\
+  (r_exit (plan_report hash stamp ch inp f auto eng) = E0 <-> r_diag (plan_report hash stamp ch inp f auto eng) = false).
+Proof. exact stdout_iff_success. Qed.
+
+Theorem C19_report_id : forall hash stamp ch bytes auto eng files doc,
+  eng bytes = EngineOk files -> pick_auto auto Json files = Some doc ->
+  r_stdout (plan_report hash stamp ch (Content bytes) Json auto eng) = Some (stamp (hash bytes) doc).
+Proof. exact report_id_is_hash. Qed.
+
+Theorem C19_channel : forall hash stamp inp f auto eng,
+  plan_report hash stamp FromFile inp f auto eng = plan_report hash stamp FromStdin inp f auto eng.
+Proof. exact channel_independent. Qed.
+
+Theorem C19_own_reports : forall hash stamp ch bytes f auto eng files others doc,
+  eng bytes = EngineOk files -> In (auto, f, doc) files -> (forall d', In (auto, f, d') files -> d' = doc) ->
+  (forall x, In x others -> fst (fst x) <> auto) ->
+  r_stdout (plan_report hash stamp ch (Content bytes) f auto (fun _ => EngineOk (others ++ files))) =
+  r_stdout (plan_report hash stamp ch (Content bytes) f auto eng).
+Proof. exact own_reports_irrelevant. Qed.
+Print Assumptions C19_own_reports.
